@@ -24,6 +24,21 @@ CLAIMED = {
              "list with distinct keys.",
         technique="Coq proof (induction; stable insertion sort, Permutation/StronglySorted) + translated sort key + "
                   "differential correspondence via extraction"),
+    "C17": dict(
+        category="proof",
+        text="Theorems for ALL token streams over the model of whitespace.Filter (preserve set and regex class "
+             "regenerated from the source): token count/order and every non-text token unchanged, non-whitespace "
+             "characters of every text token unchanged, outside preserve regions each text token is collapsed "
+             "(no adjacent whitespace, only U+0020; run-skipping equation = 'each maximal run becomes one space'), "
+             "inside untouched, the counter is positive iff an open element is in the preserve set, idempotence, "
+             "class = the five ASCII whitespace characters, preserve set = pre/textarea + raw-text elements. The "
+             "clause 'every maximal run' is REFUTED for runs split across adjacent text tokens (known finding, "
+             "witness replayed on the code every run).",
+        design_ref="DESIGN.md 3 C17",
+        note="re.sub on a character class modelled as a scanner; SpaceCharacters tokens assumed to hold only "
+             "whitespace for the non-whitespace-preservation theorem (guaranteed by the walkers, C11).",
+        technique="Coq proof (induction over streams, invariant relating the counter to the open-element stack) + "
+                  "translated tables + differential correspondence via extraction"),
 }
 
 PENDING_REASON = "not yet built in this round (planned: Coq model + theorems per DESIGN.md section 3); no check is registered, so nothing is claimed"
